@@ -692,6 +692,20 @@ func (s *Sim) finalChecks() {
 		}
 	}
 	s.finalReports()
+	// a report whose transmission met a socket error must still reach its SMF through the
+	// ordinary retransmissions, unless every one of them met an error too
+	if s.oracleOn("C10") && s.cfg.MaxRetrans >= 1 {
+		for _, u := range m.ups {
+			if s.since()-u.Sends[0] <= W+100*time.Millisecond {
+				continue // its retransmissions are not all due yet (a tick during the final wait)
+			}
+			if u.ErrSends > 0 && len(u.Sends) == u.ErrSends && u.ErrSends < 1+s.cfg.MaxRetrans && !u.Answered {
+				s.violate("C10", "report.delivered", "report:lost:send-error",
+					"request seq=%d to %s (%d usage report(s)) met %d socket error(s) and was never transmitted successfully although %d transmissions are allowed",
+					u.Seq, u.Dst, len(u.Msg.findAll(ieUsageReportSRR)), u.ErrSends, 1+s.cfg.MaxRetrans)
+			}
+		}
+	}
 }
 
 func (s *Sim) n4errs() int {
